@@ -200,6 +200,14 @@ class Rewrites(Suite):
             a = dict(classes=c2, files={}, context=None, base={'name': 'm', 'data': {'tasks': ['@M.*'], 'sel': 1}})
             b = dict(classes=c2, files={}, context=None, base={'name': 'm', 'data': {'tasks': ['@M.*'], 'sel': 1, 'opt': spelled}})
             out.append(dict(orig=a, rewr=b, moves=['spell-out-default:' + dt], prefix=''))
+        # parameters whose names differ only in letter case, declared in both orders
+        for names in (['n', 'N'], ['k', 'seed', 'K'], ['Alpha', 'alpha', 'ALPHA']):
+            def cls_with(order):
+                return [dict(K(0, 'Src', params=[P(nm) for nm in order]), name='src'), dict(K(1, 'Dst', meta_inputs=[{'cls': 0}]), name='dst')]
+            data = dict({'tasks': ['@M.*']}, **{nm: i for i, nm in enumerate(names)})
+            out.append(dict(orig=dict(classes=cls_with(names), files={}, context=None, base={'name': 'm', 'data': data}),
+                            rewr=dict(classes=cls_with(names[::-1]), files={}, context=None, base={'name': 'm', 'data': data}),
+                            moves=['permute-declarations'], prefix=''))
         # a placeholder string under dont_persist_default_value: with one value of the placeholder the substituted
         # string equals the default (the parameter is dropped from the key), with another it does not (K2c)
         cp = [dict(K(0, 'Src', params=[P('sel'), P('q', default=['/mnt/x'], dropdef=True)]), name='src'),
@@ -688,9 +696,65 @@ class ValueSources(Suite):
         return repr(case)
 
 
+class SameNamedClasses(Suite):
+    """parameter-object classes with one name in different modules (vendor_a.Model, vendor_b.Model) and different
+    constructors: the text of an object does not depend on which of the classes the process has described before -
+    it is the text a fresh process computes.  Runtime check only."""
+    name = 'same_named_object_classes'
+    model = ''
+
+    def gen(self, rng, tier):
+        return [dict(first=f, args=a) for f in ('vendor_a', 'vendor_b', None) for a in ({'size': 1, 'depth': 5}, {'size': 1, 'depth': 7})]
+
+    def run_impl(self, case):
+        import sys, types
+        from .c05 import in_child
+        src = {'vendor_a': 'from taskchain.parameter import AutoParameterObject\nclass Model(AutoParameterObject):\n'
+                           '    def __init__(self, size):\n        self.size = size\n',
+               'vendor_b': 'from taskchain.parameter import AutoParameterObject\nclass Model(AutoParameterObject):\n'
+                           '    def __init__(self, size, depth=1):\n        self.size = size\n        self.depth = depth\n'}
+
+        def text(first):
+            from taskchain.parameter import Parameter, ParameterRegistry
+            mods = {}
+            for name, code in src.items():
+                m = types.ModuleType(name)
+                sys.modules[name] = m
+                exec(compile(code, name, 'exec'), m.__dict__)
+                m.Model.__module__ = name
+                mods[name] = m
+            if first == 'vendor_a':
+                _ = mods['vendor_a'].Model(size=3).repr()
+            elif first == 'vendor_b':
+                _ = mods['vendor_b'].Model(size=3, depth=2).repr()
+            reg = ParameterRegistry([Parameter('model')])
+            reg.set_values({'model': mods['vendor_b'].Model(**case['args'])})
+            return dict(text=reg.repr)
+        return dict(here=in_child(lambda: text(case['first'])), fresh=in_child(lambda: text(None)))
+
+    def oracle(self, case, obs):
+        if 'unexpected_exception' in obs:
+            return f'unexpected exception {obs["unexpected_exception"]}: {obs["text"]}'
+        for k in ('here', 'fresh'):
+            if 'child_error' in obs[k]:
+                return f'{case}: {obs[k]["child_error"]}'
+        if obs['here']['text'] != obs['fresh']['text']:
+            return (f'{case}: after the process has described an object of {case["first"]}.Model the parameter text is '
+                    f'{obs["here"]["text"]!r}; a fresh process computes {obs["fresh"]["text"]!r}')
+        if f'depth={case["args"]["depth"]}' not in obs['here']['text']:
+            return f'{case}: the argument depth is missing from {obs["here"]["text"]!r}'
+        return None
+
+    def nontrivial(self, case, obs):
+        return case['first'] is not None
+
+    def key(self, case):
+        return repr(case)
+
+
 class C02(Prop):
     pid = 'C02'
-    suites = [Rewrites(), Registry(), ObjectArgOrder(), HashSeeds(), PathDefaults(), IgnoredValues(), ValueSources()]
+    suites = [Rewrites(), Registry(), ObjectArgOrder(), HashSeeds(), PathDefaults(), IgnoredValues(), ValueSources(), SameNamedClasses()]
     known_classes = {'object-argument-order': object_order_class, 'object-argument-order-registry': object_arg_order_class,
                      'hash-seed-set-attribute': hash_seed_class, 'placeholder-equals-default': placeholder_default_class,
                      'path-default-repr': path_default_class}
